@@ -63,6 +63,13 @@ theorem quietE_die (e : Env) (aid : Nat) : QuietE e (e.die aid) := by
     · rfl
     · simp [QuietE, hooksOf_append, hooksOf_lost, Env.setActor]
 
+theorem quietE_killAll (e : Env) : QuietE e e.killAll := by
+  unfold Env.killAll
+  generalize e.actors.map (·.aid) = ids
+  induction ids generalizing e with
+  | nil => rfl
+  | cons a as ih => rw [List.foldl_cons]; exact (quietE_die e a).trans (ih _)
+
 theorem quietE_stop (e : Env) (aid : Nat) : QuietE e (e.stop aid) := by
   unfold Env.stop
   cases ha : e.getActor aid with
@@ -624,9 +631,10 @@ theorem hookOk_tryFinishStop (w : W) (h : HookOk w) : HookOk w.tryFinishStop := 
     refine ⟨⟨k, ?_⟩, fun _ => hst⟩
     simp only
     have hq := quietE_foldlM w.inbox (w.env.emit (.hook .stopped))
-    have : hooksOf (w.inbox.foldl Env.dropMsg (w.env.emit (.hook .stopped))).log
+    have hk' := quietE_killAll (w.inbox.foldl Env.dropMsg (w.env.emit (.hook .stopped)))
+    have : hooksOf (w.inbox.foldl Env.dropMsg (w.env.emit (.hook .stopped))).killAll.log
         = hooksOf w.env.log ++ [Hook.stopped] := by
-      rw [hq]; simp [Env.emit, hooksOf_append, hooksOf]
+      rw [hk', hq]; simp [Env.emit, hooksOf_append, hooksOf]
     rw [this, hk, hex]
     simp
   · exact h
